@@ -1643,6 +1643,16 @@ pub fn free_enc<E: MkEngine>(x: &mut Exec, rng: &mut impl Rng, len: usize, big: 
                 if let Some(c) = same_need_cfg(rng, kd, k, r, sb) {
                     (nk, nr, nsb) = c;
                 }
+            } else if rng.gen_bool(0.3) && k <= 400 && r <= 400 {
+                // the very same configuration in a codec of another kind (the two rates lay the same counts out differently)
+                let ok = match kd {
+                    Kind::High => crate::dut::supports_rate("high", k, r),
+                    Kind::Low => crate::dut::supports_rate("low", k, r),
+                    _ => true,
+                };
+                if ok {
+                    (nk, nr, nsb) = (k, r, sb);
+                }
             }
             let st = step_json("rehouse", &[("k", util::enc(nk)), ("r", util::enc(nr)), ("sb", util::enc(nsb))], &[("kind", kd.name())]);
             let before = obj.snap().1.map(|s| (s.data_ptr, s.data_capacity));
@@ -1850,7 +1860,13 @@ pub fn free_dec<E: MkEngine>(x: &mut Exec, rng: &mut impl Rng, len: usize, big: 
                     round = None;
                     given_o.clear();
                     given_r.clear();
-                    replay_queue = if rng.gen_bool(0.5) { this_round.iter().rev().copied().collect() } else { Vec::new() };
+                    // the next round often offers the same shards again - or, when the counts allow it, the MIRRORED set
+                    // (original i <-> recovery i): after a move to the other rate those land on the same work positions
+                    replay_queue = match rng.gen_range(0..6) {
+                        0..=2 => this_round.iter().rev().copied().collect(),
+                        3 if k == r => this_round.iter().rev().map(|a| (!a.0, a.1)).collect(),
+                        _ => Vec::new(),
+                    };
                     last_decoded = std::mem::take(&mut this_round);
                 }
             }
@@ -1916,6 +1932,16 @@ pub fn free_dec<E: MkEngine>(x: &mut Exec, rng: &mut impl Rng, len: usize, big: 
             if big && rng.gen_bool(0.4) {
                 if let Some(c) = same_need_cfg(rng, kd, k, r, sb) {
                     (nk, nr, nsb) = c;
+                }
+            } else if rng.gen_bool(0.3) && k <= 400 && r <= 400 {
+                // the very same configuration in a codec of another kind (the two rates lay the same counts out differently)
+                let ok = match kd {
+                    Kind::High => crate::dut::supports_rate("high", k, r),
+                    Kind::Low => crate::dut::supports_rate("low", k, r),
+                    _ => true,
+                };
+                if ok {
+                    (nk, nr, nsb) = (k, r, sb);
                 }
             }
             let st = step_json("rehouse", &[("k", util::enc(nk)), ("r", util::enc(nr)), ("sb", util::enc(nsb))], &[("kind", kd.name())]);
